@@ -114,6 +114,75 @@ def programs(tier):
                 idx += 1
                 ident = f"c08:flow={flow}:caps={''.join(caps)}:depth={depth}"
                 out.append({"prog": program(list(caps), depth, flow, idx), "family": "c08", "ident": ident})
+    # ---- where inside the closure body the captured variable is used (capture analysis must visit every construct)
+    def site_body(site, v):
+        """expression of type int32 using captured variable v (int32) only at `site`"""
+        if site == "match-default-arm":
+            return Match(Var("a"), [(PInt(0), Int(1)), (PInt(1), Int(2)), (PWild, Bin("+", Var(v), Int(1000)))])
+        if site == "match-literal-arm":
+            return Match(Var("a"), [(PInt(5), Bin("+", Var(v), Int(2000))), (PWild, Int(3))])
+        if site == "match-scrutinee":
+            return Match(Bin("+", Var(v), Var("a")), [(PInt(0), Int(1)), (PWild, Int(4))])
+        if site == "string-match-default":
+            return Match(Call("int32_to_string", Var("a")), [(PStr("0"), Int(1)), (PWild, Bin("+", Var(v), Int(3000)))])
+        if site == "enum-match-arm":
+            return Match(Ctor(K, "K1", Var("a")), [(PCtor("K1", PVar("q")), Bin("+", Var(v), Var("q"))), (PCtor("K0"), Int(0))])
+        if site == "if-else-branch":
+            return If(Bin("<", Var("a"), Int(0)), Int(1), Bin("+", Var(v), Int(4000)))
+        if site == "if-condition":
+            return If(Bin("<", Var(v), Int(100)), Int(7), Int(8))
+        if site == "while-condition":
+            return Block([Let("i", Call("ref", Int(0))), Do(While(Bin("<", Call("ref_get", Var("i")), Var(v)), Block([Do(Call("ref_set", Var("i"), Bin("+", Call("ref_get", Var("i")), Int(1))))], Unit)))], Call("ref_get", Var("i")))
+        if site == "nested-let":
+            return Block([Let("u", Block([Let("w", Bin("*", Var(v), Int(2)))], Var("w")))], Bin("+", Var("u"), Var("a")))
+        if site == "call-argument":
+            return Call("top", Var(v))
+        if site == "tuple-element":
+            return Block([Let(PTuple(PVar("t0"), PWild), Tuple(Var(v), Var("a")))], Var("t0"))
+        if site == "struct-field":
+            return Field(Struct(TAdt("P2"), [("m", Var("a")), ("n", Var(v))]), "n")
+        if site == "array-element":
+            return Call("array_get", Array(Var("a"), Var(v)), Int(1))
+        if site == "unary":
+            return Un("-", Var(v))
+        if site == "inner-closure":
+            return Block([Let("inner", Lam([("z", INT32)], Bin("+", Var("z"), Var(v))))], CallV(Var("inner"), Var("a")))
+        if site == "inner-closure-default-arm":
+            return Block([Let("inner", Lam([("z", INT32)], Match(Var("z"), [(PInt(0), Int(1)), (PWild, Bin("+", Var(v), Int(5000)))])))], CallV(Var("inner"), Var("a")))
+        raise ValueError(site)
+    SITES = ["match-default-arm", "match-literal-arm", "match-scrutinee", "string-match-default", "enum-match-arm", "if-else-branch", "if-condition",
+             "while-condition", "nested-let", "call-argument", "tuple-element", "struct-field", "array-element", "unary", "inner-closure",
+             "inner-closure-default-arm"]
+    for site in SITES:
+        for capkind in ("let", "param"):
+            p = Program(f"c08_site_{site.replace('-', '_')}_{capkind}")
+            prelude(p)
+            p.struct("P2", [("m", INT32), ("n", INT32)])
+            v = "l" if capkind == "let" else "p"
+            p.fn("run", [("p", INT32)], INT32, Block([Let("l", Int(2)), Let("c", Lam([("a", INT32)], site_body(site, v))), Let("r1", CallV(Var("c"), Int(1))), Let("r2", CallV(Var("c"), Int(5)))],
+                                                   Bin("+", Bin("*", Var("r1"), Int(3)), Var("r2"))))
+            p.fn("main", [], UNIT, Block([println(show_int(Call("run", Int(3))))], Unit))
+            out.append({"prog": p, "family": "c08", "ident": f"c08:use-site={site}:captured={capkind}"})
+    # captured *function-typed* variables used only as callee / only as argument / both, also inside nested closures
+    for fkind in ("let-fnref", "param-fn"):
+        for use in ("callee", "callee-twice", "argument", "callee-in-inner-closure", "callee-in-default-arm"):
+            p = Program(f"c08_fncap_{fkind.replace('-', '_')}_{use.replace('-', '_')}")
+            prelude(p)
+            g = "op" if fkind == "let-fnref" else "f"
+            if use == "callee":
+                body = CallV(Var(g), Var("a"))
+            elif use == "callee-twice":
+                body = CallV(Var(g), CallV(Var(g), Var("a")))
+            elif use == "argument":
+                body = Call("apply", Var(g), Var("a"))
+            elif use == "callee-in-inner-closure":
+                body = Block([Let("inner", Lam([("z", INT32)], CallV(Var(g), Var("z"))))], CallV(Var("inner"), Var("a")))
+            else:
+                body = Match(Var("a"), [(PInt(0), Int(1)), (PWild, CallV(Var(g), Var("a")))])
+            stmts = ([Let("op", FnRef("top"))] if fkind == "let-fnref" else []) + [Let("c", Lam([("a", INT32)], body)), Let("r", CallV(Var("c"), Int(4)))]
+            p.fn("run", [("f", FN1)], INT32, Block(stmts, Var("r")))
+            p.fn("main", [], UNIT, Block([println(show_int(Call("run", FnRef("top"))))], Unit))
+            out.append({"prog": p, "family": "c08", "ident": f"c08:fn-typed-capture={fkind}:use={use}"})
     # top-level functions as values in every flow; zero-argument function value; returned closure
     for flow in ["let", "tuple", "struct", "array", "arg", "branch", "closure-in-closure"]:
         p = Program(f"c08_top_{flow.replace('-', '_')}")
